@@ -89,8 +89,14 @@ func (r *FunctionData[T]) UpdateData(remoteWrite, persist bool, newData *T, filt
 		}
 	}
 
+	// the update functions check the new list for being nil, which a typed nil pointer is not
+	var newList any
+	if newData != nil {
+		newList = newData
+	}
+
 	updater := any(updatedData).(model.Updater)
-	data, success := updater.UpdateList(remoteWrite, persist, newData, filterPartial, filterDelete)
+	data, success := updater.UpdateList(remoteWrite, persist, newList, filterPartial, filterDelete)
 	if !success {
 		return nil, model.NewErrorTypeFromString("update failed, likely not allowed to write")
 	}
@@ -107,7 +113,9 @@ func (r *FunctionData[T]) DataCopyAny() any {
 }
 
 func (r *FunctionData[T]) UpdateDataAny(remoteWrite, persist bool, newData any, filterPartial *model.FilterType, filterDelete *model.FilterType) (any, *model.ErrorType) {
-	data, err := r.UpdateData(remoteWrite, persist, newData.(*T), filterPartial, filterDelete)
+	// a delete filter does not need any data
+	typedData, _ := newData.(*T)
+	data, err := r.UpdateData(remoteWrite, persist, typedData, filterPartial, filterDelete)
 	if err != nil {
 		logging.Log().Debug(err.String())
 	}
